@@ -27,10 +27,10 @@ func init() {
 			"every vendor extension held by a decoded model is a member of the encoder output under exactly its own name (extension names over the C01 name alphabet, upper case included)",
 			"vh_C06_nodup_<Kind>: values decoded from the symbolic normal-form documents of C01 (presence of every keyword symbolic); output must be valid JSON without repeated member names",
 			"vh_C06_builders: values built by AddExtension x2 (keys x-/X- + symbolic byte), SetProperty x2, RespondsWith x2 + default, AddHeader x2, AddExample",
-			"vh_C06_order: schema with 2..props properties, names one symbolic byte each (distinct), x-order absent / float64 in {0,1,2} / digit string in {0,1,2} / non-numeric string; encoded twice with every map iteration order explored independently (symbolic permutations); byte equality and (has x-order, x-order, name) order asserted",
+			"vh_C06_order: schema with 2..props properties, names one symbolic byte each (distinct), x-order absent / float64 in {-2..2} / integer string in {-2..2} / non-numeric string; encoded twice with every map iteration order explored independently (symbolic permutations); byte equality and (has x-order, x-order, name) order asserted",
 			"vh_C06_refstring: $ref text of 0..ref_len unconstrained bytes inside a schema",
 		},
-		Outside:     []string{"more than props properties, x-order values outside {0,1,2} or non-integral floats (int() truncation ties), longer names, builder sequences longer than listed", "'many runs of randomised map iteration' (sampling) is replaced by the symbolic permutation; native replays repeat 40 times"},
+		Outside:     []string{"more than props properties, x-order values outside {-2..2} or non-integral floats (int() truncation ties), longer names, builder sequences longer than listed", "'many runs of randomised map iteration' (sampling) is replaced by the symbolic permutation; native replays repeat 40 times"},
 		Assumptions: []string{"property names pairwise distinct", "valid UTF-8"},
 		Models:      []string{"M-json", "M-swag.ConcatJSON", "sort.Sort and OrderSchemaItems.Less (with its recover) executed from SSA", "map iteration = symbolic permutation"},
 	})
@@ -62,8 +62,8 @@ func init() {
 	})
 	reg(&PropSpec{
 		ID: "C14", Cross: "z3-new", Prefix: "vh_C14_",
-		Quick:    Tier{Params: map[string]int{"exts": 1, "extras": 1, "name_len": 1, "sizes": 1, "any_shapes": 1, "ref_primary": 1, "sec_reqs": 2, "vary": 0}},
-		Thorough: Tier{Params: map[string]int{"exts": 1, "extras": 1, "name_len": 1, "sizes": 1, "any_shapes": 1, "ref_primary": 1, "sec_reqs": 2, "vary": 0}},
+		Quick:    Tier{Params: map[string]int{"exts": 1, "extras": 1, "name_len": 1, "sizes": 1, "any_shapes": 1, "ref_primary": 1, "sec_reqs": 2, "sec_empty": 1, "vary": 0}},
+		Thorough: Tier{Params: map[string]int{"exts": 1, "extras": 1, "name_len": 1, "sizes": 1, "any_shapes": 1, "ref_primary": 1, "sec_reqs": 2, "sec_empty": 1, "vary": 0}},
 		Bounds: []string{
 			"per type (Schema, Parameter, Items, Header, Response, Operation, Swagger): the symbolic normal-form document of C01 (every keyword's presence symbolic, numeric validations unconstrained 64-bit values incl. zero) is decoded, sent through gob.Encoder/Decoder, and the JSON encodings before and after are compared member by member",
 			"free-form payloads (default, example, enum, extensions, unknown keywords, examples) are one rich value: string, number, booleans, nulls, empty objects, nesting, zero, and (under a symbolic bit, no fork) empty arrays",
@@ -258,7 +258,7 @@ func init() {
 	reg(&PropSpec{
 		ID: "C20", Cross: "z3-new", Prefix: "vh_C20_",
 		Quick:    Tier{Params: map[string]int{"enum_max": 2, "cb_max": 2}},
-		Thorough: Tier{Params: map[string]int{"enum_max": 3, "cb_max": 3}},
+		Thorough: Tier{Params: map[string]int{"enum_max": 4, "cb_max": 4}},
 		Bounds: []string{
 			"enum: nil, empty, or 1..enum_max opaque elements; callbacks: 0..cb_max per clear",
 			"every pointer validation: nil or pointer to an unconstrained 64-bit value; booleans and opaque strings unconstrained",
